@@ -151,4 +151,14 @@ def deleteM (d : Dialect) (B : Nat) (L : Layout) : FileM Unit := do
 def deleteEntry (d : Dialect) (B : Nat) (L : Layout) : FileM Unit :=
   convertError PyErr.isIO .mutagen (deleteM d B L)
 
+/-- `_WaveID3.delete(filething)`: `@loadfile(writable=True)` around the module function `delete`, which is
+`@loadfile(method=False, writable=True)` itself: the FileThing passes through and `verify_fileobj` runs a second time -/
+def deleteWaveMethodM (d : Dialect) (B : Nat) (L : Layout) : FileM Unit := do
+  verifyM
+  deleteM d B L
+
+/-- … with `@convert_error(IOError, error)` on the method and on the function -/
+def deleteWaveMethodEntry (d : Dialect) (B : Nat) (L : Layout) : FileM Unit :=
+  convertError PyErr.isIO .mutagen (deleteWaveMethodM d B L)
+
 end Mutagen.Iff
